@@ -32,6 +32,13 @@ TRUSTED = [
 ]
 
 # ---- program snippets.  Victim snippets observe; each emits with a tag as first argument.
+LIM_SNIPPET = 'emit("lim", tostring(runtime.context().kill.cpu), tostring(runtime.context().kill.memory), runtime.context().flags)'
+# observers of the metatables of library values (context objects, resources, files, strings, coroutines)
+META_VICTIM = [
+    'local c = runtime.context() emit("cmt", tostring(c), c.status, type(c.used), tostring(c.kill), tostring(c.kill.cpu), c.flags, type(getmetatable(c).__index), type(getmetatable(c.kill).__tostring))',
+    'local cc = runtime.callcontext({kill={cpu=100000}}, function() return 1 end) emit("ccmt", tostring(cc), cc.status, tostring(cc.kill.cpu), tostring(cc.kill), type(cc.used.cpu), rawequal(getmetatable(cc), getmetatable(runtime.context())))',
+    'emit("fmt2", io.type(io.stdout), type(io.stdout.write), type(getmetatable(io.stdout).__index.lines), getmetatable(io.stdout).__name, type(getmetatable("").__index.rep), getmetatable(coroutine.create(print)))',
+]
 VICTIM = [
     'x = (x or 0) + 1 emit("g", x)',
     'emit("s", ("abc"):upper(), #("x"):rep(3), ("a,b"):find(",", 1, true))',
@@ -58,12 +65,26 @@ VICTIM = [
     'local n = 0 for i = 1, 200 do for w in ("k1=v1;k2=v2;k3=v3"):gmatch("(%w+)=%w+") do n = n + #w end if ("abc" .. i):match("^%a+(%d+)$") then n = n + 1 end end emit("patloop", n)',
     'emit("g2", rawget(_G, "hacked"), rawget(_G, "x") == x, type(string.upper), type(tostring))',
 ]
+VICTIM += META_VICTIM
 RNG_VICTIM = [
     'math.randomseed(5)',
     'emit("rng", math.random(1, 1000))',
     'emit("rng", math.random(1, 1000), math.random(1, 1000))',
+    'emit("rng", math.random(0, math.maxinteger), math.random(math.mininteger, -1), math.random(math.mininteger, math.maxinteger), math.random(-10, math.maxinteger))',
+    'emit("rng", math.random(0), math.random(), math.random(3))',
 ]
 GC_VICTIM = ['emit("gc", collectgarbage("isrunning"))']
+# adversaries that fetch and modify every metatable reachable from library values
+META_ADVERSARY = [
+    'local function wreck(v) local mt = debug.getmetatable(v) if type(mt) == "table" then for k in pairs(mt) do rawset(mt, k, nil) end '
+    'rawset(mt, "__index", function() return "HACKED" end) rawset(mt, "__tostring", function() return "HACKED" end) rawset(mt, "__name", "HACKED") end end '
+    'local c = runtime.context() local k, st, u = c.kill, c.stop, c.used wreck(k) wreck(st) wreck(u) wreck(c) wreck(io.stdout) wreck(io.stdin) wreck("") wreck(coroutine.create(print)) wreck(print)',
+    'local seen = {} local function walk(v, d) if d > 5 or seen[v] then return end local t = type(v) if t ~= "table" and t ~= "userdata" then return end seen[v] = true '
+    'local mt = debug.getmetatable(v) if type(mt) == "table" and not seen[mt] then seen[mt] = true rawset(mt, "__index", function() return "WALKED" end) rawset(mt, "__tostring", function() return "WALKED" end) end '
+    'if t == "table" then for k, x in next, v do walk(x, d + 1) end end end '
+    'local c = runtime.context() local vals = {c, c.kill, c.used, runtime.callcontext({}, function() end), io.stdout, io.stderr, package.loaded, _G} for i = 1, #vals do walk(vals[i], 0) end',
+    'local c = runtime.context() getmetatable(c.kill).__index = nil getmetatable(c).__tostring = function() return "B" end debug.setmetatable(c, nil)',
+]
 ADVERSARY = [
     'print = nil tostring = function() return "B" end type = nil select = nil',
     'string.upper = function() return "HACKED" end string.format = nil string.rep = nil',
@@ -88,8 +109,9 @@ ADVERSARY = [
     'collectgarbage("collect") collectgarbage("step")',
     'for i = 1, 300 do local _ = ("zz" .. i):find("z+%d") _ = ("q,r,s"):gsub("[^,]+", "%0%0") end',
 ]
+ADVERSARY += META_ADVERSARY
 OPTIONS = ["cpu:1000000000", "cpu:3000", "regpool:20,regage:3", "cpu:60000,regpool:20", "mem:100000000", "cpu:1000000000,regpool:1,regage:1"]
-RNG_ADVERSARY = ['math.randomseed(7)', 'math.random()', 'math.random(10) math.random(10)']
+RNG_ADVERSARY = ['math.randomseed(7)', 'math.random()', 'math.random(10) math.random(10)', 'math.random(0, math.maxinteger) math.random(math.mininteger, math.maxinteger) math.random(0)']
 GC_ADVERSARY_STOP = 'collectgarbage("stop")'
 GC_ADVERSARY_RESTART = 'collectgarbage("restart")'
 
@@ -115,7 +137,7 @@ def gen_pair(rng, kind):
         sched = "ABABAAB"
     if kind == "opt":
         # B (created without options, after A) is an observer that looks at its own limits and flags
-        B = [VICTIM[-4]] + [rng.choice(VICTIM) for _ in range(nb)] + [VICTIM[-4]]
+        B = [LIM_SNIPPET] + [rng.choice(VICTIM) for _ in range(nb)] + [LIM_SNIPPET]
     return A, B, sched
 
 
@@ -392,8 +414,10 @@ def run(tier, seed):
         if not any(r["var"] == v for r in written):
             ck.notes.append("known finding %s: variable %s no longer has a writer outside init" % (k["id"], v))
     for r in bad_rows[:10]:
-        ck.violation("package-level variable %s (%s, %s) is written outside package initialisers by %s" %
-                     (r["var"], r["type"][:60], r["pos"], ", ".join((r["direct"] + r["indirect"])[:4])),
+        hows = [h for h in r.get("how", []) if h.startswith("shared mutable Lua object") or h.startswith("address escapes")]
+        ck.violation("package-level variable %s (%s, %s) is %s outside package initialisers by %s%s" %
+                     (r["var"], r["type"][:60], r["pos"], "shared mutable state handed out" if hows else "written",
+                      ", ".join((r["direct"] + r["indirect"])[:4]), (": " + hows[0][:160]) if hows else ""),
                      {"kind": "generated-table-row", "row": r, "theorem": "C20_no_shared_writers_partial",
                       "coq": str(ck.cov.get("obligation_failure", ""))[-600:]}, no_input=(nviol == 0))
     if not ok_obl and not bad_rows:
